@@ -214,7 +214,9 @@ fn marker(rw: &mut Rw, op: &str, s: &Src) -> (Stmt, usize) {
     rw.events.push(format!("loop {}", key));
     let k = syn::LitStr::new(&key, Span::call_site());
     let l = syn::LitStr::new(&lt, Span::call_site());
-    (parse_quote!(vx_loop!(#k, #l);), rw.next("iter:var"))
+    let v = rw.next("iter:var");
+    let iv = syn::LitStr::new(&format!("__i{}", v), Span::call_site());
+    (parse_quote!(vx_loop!(#k, #l, #iv);), v)
 }
 
 fn and_all(cs: Vec<Expr>) -> Expr {
@@ -465,7 +467,8 @@ pub fn desugar(rw: &mut Rw, e: &Expr) -> Option<Expr> {
             let lt = len_text(&s);
             let k = syn::LitStr::new(&key, Span::call_site());
             let l = syn::LitStr::new(&lt, Span::call_site());
-            let mk: Stmt = parse_quote!(vx_loop!(#k, #l););
+            let iv = syn::LitStr::new(&format!("__i{}", v), Span::call_site());
+            let mk: Stmt = parse_quote!(vx_loop!(#k, #l, #iv););
             let idx = format_ident!("__i{}", v);
             let mut cs = vec![];
             conds(&s, &idx, &mut cs);
